@@ -32,12 +32,12 @@ TRUSTED_BASE = ["Coq 8.16.1 kernel + vm_compute", "functional_extensionality_dep
                 "int(expire * 1000) is computed by the harness the way the code does and handed to the model as the TTL in ms"]
 ASSUMPTIONS = ["keys of different value kinds are disjoint in generated histories (the model answers WRONGTYPE like the stand-in, but the reference is stated for well-typed use)",
                "the server goes down / comes back between commands, not between two server calls of one command",
-               "SPOP returns the smallest members (the server may return any)", "non-negative counters"]
+               "SPOP returns the smallest members (the server may return any)"]
 EXHAUSTIVE = {"quick": False, "thorough": False}
 ALLOWED_AXIOMS = ["FunctionalExtensionality.functional_extensionality_dep"]   # named in TRUSTED_BASE
 STR_KEYS = ["a", "b", "ab", "n", "m"]
 U = sorted(["a", "b", "ab", "n", "m", "La", "sa", "sb", "za", "ba"])
-VALUES = [1, 5, "x", "hello", b"raw", None, 0, True]
+VALUES = [1, 5, -3, "x", "hello", b"raw", None, 0, True]
 DEFAULT = "<default>"
 logging.getLogger("cashews.backends.redis.client").disabled = True
 logging.getLogger("cashews.backends.redis.client_side").disabled = True
@@ -56,7 +56,7 @@ def _rand_cmd(rng):
     if r < 0.46: return ["exists", rng.choice(U)]
     if r < 0.51: return ["expire", rng.choice(U), rng.choice([0.125, 0.5, 1.0, 2.5])]
     if r < 0.58: return ["get_expire", rng.choice(U)]
-    if r < 0.68: return ["incr", rng.choice(["n", "m"]), rng.choice([1, 1, 2, 3]), rng.choice([0, 0, 0.5, 1.0])]
+    if r < 0.68: return ["incr", rng.choice(["n", "m"]), rng.choice([1, 1, 2, 3, -1, -2, 0]), rng.choice([0, 0, 0.5, 1.0])]
     if r < 0.72: return ["set_lock", "La", rng.choice(["t1", "t2"]), rng.choice([0.5, 1.0])]
     if r < 0.76: return ["unlock", "La", rng.choice(["t1", "t2"])]
     if r < 0.79: return ["scan", rng.choice(["*", "a*", "*a", "s*", "b", "*b*"]), rng.choice([100, 1, 2, 3])]
@@ -119,7 +119,7 @@ async def _dump(server, be):
         kind, v, exp = e
         if kind == "string":
             if k.startswith("b") and k == "ba": val = ["bits", [(byte >> (7 - i)) & 1 for byte in v for i in range(8)]]
-            elif v.isdigit(): val = ["num", int(v)]
+            elif v.isdigit() or (v[:1] == b"-" and v[1:].isdigit()): val = ["num", int(v)]
             elif k.startswith("L"): val = ["tok", v.decode()]
             else:
                 try: val = ["val", enc(await be._serializer.decode(be, key=k, value=v, default=None))]
@@ -167,7 +167,7 @@ def _run_history(case):
                     v = await be.unlock(c[1], c[2]); r = ["none"] if v is None else ["int", int(v)]
                 elif op == "scan": r = ["keys", sorted([k async for k in be.scan(c[1], batch_size=c[2] if len(c) > 2 else 100)])]
                 elif op == "delete_match": r = ["unit" if (await be.delete_match(c[1])) is None else "odd"]
-                elif op == "get_match": r = ["pairs", sorted([[k, enc(v)] async for k, v in be.get_match(c[1], batch_size=c[2] if len(c) > 2 else 100)], key=lambda kv: kv[0])]
+                elif op == "get_match": r = ["pairs", sorted([[k, enc(v)] async for k, v in be.get_match(c[1], batch_size=c[2] if len(c) > 2 else 100) if k in STR_KEYS], key=lambda kv: kv[0])]   # reading a bit-field / lock key as a value is outside the property
                 elif op == "set_add":
                     v = await be.set_add(c[1], *c[2], expire=c[3]); r = ["none"] if v is None else ["int", int(v)]
                 elif op == "set_remove":
